@@ -403,7 +403,12 @@ Inductive op :=
 | OpRetrieve (s : option bool)   (* signature(getattr(...)) *)
 | OpCall (s : bool)              (* getattr(instance, name)(...) -> returns self *)
 | OpRedecorate                   (* annotate(...)(cls.__dict__[name]) *)
-| OpDrop (s : bool).             (* del instance and everything obtained from it; gc.collect(); new instance in the slot *)
+| OpDrop (s : bool)              (* del instance and everything obtained from it; gc.collect(); new instance in the slot *)
+| OpConnect (s : bool).          (* instance.target = ... : the attribute a forwards_to_ivar method forwards to becomes
+                                    available.  Before it, a retrieval fails or silently falls back; a failing
+                                    retrieval must leave nothing behind (the as_forged guard set is empty between
+                                    operations), so in the model neither the failing retrieval nor this step
+                                    changes the cache or the heap. *)
 
 Record obs := mkObs {
   o_tag : N;
@@ -441,6 +446,7 @@ Definition impl_step (k : dkind) (st : cstate) (o : op) : cstate * obs :=
          (filter (fun e => existsb (fun w => N.eqb (we_val w) (w_id (snd e))) (fst r)) (c_cache st))
          (c_strong st) (fst r) (c_owner st) (x' :: locals'),
      mkObs 5 true 0 reclaimed)
+  | OpConnect _ => (st, mkObs 6 true 0 true)
   end.
 
 Fixpoint run_impl (k : dkind) (st : cstate) (h : list op) : list obs :=
@@ -463,6 +469,7 @@ Definition spec_step (k : dkind) (ver : N) (o : op) : N * obs :=
   | OpCall _ => (ver, mkObs 3 true 0 true)
   | OpRedecorate => (N.succ ver, mkObs 4 true 0 true)
   | OpDrop _ => (ver, mkObs 5 true 0 true)
+  | OpConnect _ => (ver, mkObs 6 true 0 true)
   end.
 
 Fixpoint run_spec (k : dkind) (ver : N) (h : list op) : list obs :=
